@@ -8,6 +8,9 @@ CLAIMED = {
  "C02": ("decision-table extraction: vectorised abstract interpretation of processData()'s header cascade over the complete finite domain (2^16 headers x 64 contexts) compared cell-by-cell with an RFC 6455 table; predicate extension over 0..65535 for close codes; guard-dominance rules on CFG",
          "Exhaustive for the header verdict: all 4 194 304 (context, first-two-octets) cells plus every boundary class of the extended length are compared with a reference table written from RFC 6455 5.2/5.5 and RFC 7692; the close-code predicate is compared by extension over all 65536 codes; UTF-8 fail-fast ordering, 1002/1007 + drop-vs-close policy, pong echo and the delivery gate are proven as dominance facts on the CFG. Does not decide independence from read boundaries (runtime segmentation).",
          "3 C02"),
+ "C03": ("writer/reader table extraction over the AST + must-facts (marshal/marshal_options vs parse, positions and option keys followed through locals to the constructor call), guard/field and guard-strength rules, registry completeness, codec-pair constant agreement for batching and the JSON bytes convention",
+         "Decides the structural necessary conditions of round-tripping for all 25 classes: marshal and parse know the same option/detail keys, each key and list position is written from the attribute it is parsed into, each guard tests the field it emits and does not drop an admissible falsy value, every emitted list shape has an accepted length (lengths from the C08 interpretation); MESSAGE_TYPE_MAP maps every class under its own unique code; the four transport object serializers' batch framing agrees between serialize and unserialize (delimiter / length-prefix format, width, cursor advance, trailing check); the binary flag is the object serializer's BINARY; JSON bytes prefixes and inverse functions agree. Does not decide value fidelity of the third-party codecs.",
+         "3 C03"),
  "C05": ("typestate / guard-dominance analysis over CFG + call graph (must-facts dataflow, backwards argument tracing)",
          "Decides on all paths of the code: permitted predecessor states of every self.state writer, single guarded close-frame site, state==OPEN guard of every send API, legality of every close code/reason reaching sendCloseFrame, ownership and mutual exclusion of the close notification, closing-timer pairing. Does not decide the behaviour under all event interleavings or real-time bounds (runtime schedules).",
          "3 C05"),
